@@ -87,13 +87,15 @@ def counterSafe (c : TxnCounter) (limit : Option Nat) : Bool :=
   | none => true
   | some l => decide (c.curCount + c.curFailed ≤ l)
 
-/-- `MaxTransactionCount.add_transaction` (through `client.add_transaction`) -/
+/-- `MaxTransactionCount.add_transaction(count, failed)` -/
+def _root_.Flumine.TxnCounter.add (k : TxnCounter) (n : Nat) (failed : Bool) : TxnCounter :=
+  if failed then { k with failed := k.failed + n, curFailed := k.curFailed + n }
+  else { k with count := k.count + n, curCount := k.curCount + n }
+
+/-- `client.add_transaction` → the client's MaxTransactionCount control -/
 def addTransaction (w : World) (cid : Nat) (n : Nat) (failed : Bool := false) : World :=
   let c := w.client! cid
-  let k := c.counter
-  let k' := if failed then { k with failed := k.failed + n, curFailed := k.curFailed + n }
-            else { k with count := k.count + n, curCount := k.curCount + n }
-  w.setClient { c with counter := k' }
+  w.setClient { c with counter := c.counter.add n failed }
 
 inductive Refusal
   | orderValidation (msg : String) | marketValidation (msg : String) | exposure (e : ExpoErr)
